@@ -608,8 +608,9 @@ class _Imp(object):
     def target(self, t):
         if isinstance(t, ast.Name):
             return t.id
-        if isinstance(t, ast.Attribute) and isinstance(t.value, ast.Name) and t.value.id == "self":
-            return "self_" + t.attr
+        if isinstance(t, ast.Attribute) and isinstance(t.value, ast.Name) \
+                and (t.value.id == "self" or t.value.id + "_" + t.attr in self.env):
+            return t.value.id + "_" + t.attr
         raise TranslateError("arith: assignment target %s" % ast.unparse(t))
 
     def assigned(self, stmts):
@@ -737,6 +738,53 @@ def gen_arith():
         out += ["/-- `AxisPosition.%s(%s)`: the new value of %s -/" % (fname, arg, ", ".join(r[5:] for r in res)),
                 "def %s %s (%s : α) : %s :=\n%s" % (fname, selfparams, arg, " × ".join("α" for _ in res),
                                                    imp.block(f.body, tup, 1)), ""]
+    # RetractionState._addCommands(direction, position), non-firmware branch: the numbers put into
+    # the two synthesised commands and the extruder position left behind
+    rs0 = ast.parse(_src("RetractionState.py"))
+    f = _method(rs0, "RetractionState", "_addCommands", ["direction", "position"])
+    top = [st for st in f.body if isinstance(st, ast.If)]
+    if len(top) != 1 or ast.unparse(top[0].test) != "self.firmwareRetract" or not top[0].orelse:
+        raise TranslateError("arith: shape of RetractionState._addCommands")
+    stmts, templates, outs = [], [], []
+    for st in top[0].orelse:
+        src = ast.unparse(st)
+        if src == "eAxis = position.E_AXIS":
+            continue
+        if isinstance(st, ast.Expr) and src.startswith("returnCommands.append("):
+            call = st.value.args[0]
+            if not (isinstance(call, ast.Call) and isinstance(call.func, ast.Attribute) and call.func.attr == "format"
+                    and isinstance(call.func.value, ast.Constant) and isinstance(call.func.value.value, str)
+                    and not call.args):
+                raise TranslateError("arith: _addCommands appends %s" % src[:80])
+            k = len(templates)
+            templates.append(call.func.value.value)
+            for kw in call.keywords:
+                v = kw.value
+                if not (isinstance(v, ast.Call) and ast.unparse(v.func) == "formatNumber" and len(v.args) == 1):
+                    raise TranslateError("arith: _addCommands formats %s without formatNumber" % kw.arg)
+                name = "out%d_%s" % (k, kw.arg)
+                outs.append(name)
+                stmts.append(ast.parse("%s = %s" % (name, ast.unparse(v.args[0]))).body[0])
+            continue
+        stmts.append(st)
+    env = dict(("eAxis_" + a, "num") for a in attrs)
+    env.update({"eAxis_absoluteMode": "bool", "self_extrusionAmount": "num", "self_feedRate": "num", "direction": "num"})
+
+    def e_n2l(imp, args):
+        if args:
+            raise TranslateError("arith: call of nativeToLogical in _addCommands")
+        return ("(nativeToLogical eAxis_current eAxis_homeOffset eAxis_offset eAxis_unitMultiplier eAxis_absoluteMode"
+                " eAxis_current true true true)")
+    imp = _Imp(env, calls={"eAxis.nativeToLogical": e_n2l})
+    if sorted(outs) != ["out0_e", "out1_e", "out1_f"]:
+        raise TranslateError("arith: numbers formatted by _addCommands: %s" % outs)
+    out += ["/-- the command templates of `RetractionState._addCommands` (non-firmware branch) -/",
+            "def addCommandsTemplates : List String := [%s]" % ", ".join(lean_str(t) for t in templates), "",
+            "/-- `RetractionState._addCommands(direction, position)`, non-firmware branch: the numbers formatted into",
+            "the two commands (`%s`) and the extruder position left behind -/" % ", ".join(outs),
+            "def addCommandsValues (self_extrusionAmount self_feedRate direction : α)\n"
+            "    (eAxis_current eAxis_homeOffset eAxis_offset eAxis_unitMultiplier : α) (eAxis_absoluteMode : Bool) :\n"
+            "    α × α × α × α :=\n" + imp.block(stmts, "(%s, eAxis_current)" % ", ".join(outs), 1), ""]
     # RetractionState.combine(other, logger): the new extrusionAmount
     rs = ast.parse(_src("RetractionState.py"))
     f = _method(rs, "RetractionState", "combine", ["other", "logger"])
